@@ -611,3 +611,20 @@ Definition templates_valid (with_seq : bool) (g : list (sym * ptempl)) (t : rt) 
                     | Some (QSeq syms) => if with_seq then valid (seq_gen (rname s) syms) s else true
                     | _ => true
                     end) (subtrees t).
+
+(* ------------------------------------------------------------------ *)
+(* one parser object used for several calls                            *)
+
+(* The cleanuper of a parser object (templates, choice / keep / squash symbols)
+   is made once by the LLParser constructor from the constructor's arguments.
+   A call parse(text, start_symbol_name=..) / cleanup(tree) hands it the raw
+   tree [raw] the parse loop built for THAT call and gets the cleaned root; the
+   state that the next call sees is the state before the call: no argument of a
+   call (start symbol, do_cleanup) and no parsed text is remembered. *)
+Definition call_step (E : env) (raw : rt) : env * res te := (E, cleanup E raw).
+
+Fixpoint run_calls (E : env) (raws : list rt) : list (res te) :=
+  match raws with
+  | [] => []
+  | r :: rest => let st := call_step E r in snd st :: run_calls (fst st) rest
+  end.
